@@ -73,7 +73,7 @@ def f_overlap_large(case):
     N = case['N']
     S, c, L, K = big_state(dict(case, r=0))
     c2 = ref.random_big_clifford(N, case['seed'], case['ngates'])      # same state, then evolve by extra random gates
-    extra = ref.random_big_clifford(N, case['seed'] + 7, case['extra'])
+    extra = ref.random_big_clifford(N, case['seed'] + 7, case['extra'], scramble=case.get('scramble', True))     # without scrambling: a few H / S / CNOT gates only
     c2 = c2.compose(extra) if case['extra'] else c2
     r2 = case['r2'] % (N + 1) if case['r2'] < 6 else 0
     O = B.np_state(c2, r2)
